@@ -10,6 +10,7 @@ import (
 	"math/rand"
 	"strings"
 	"sync"
+	"time"
 	"testing"
 	"testing/iotest"
 )
@@ -408,8 +409,19 @@ func TestVerifC10(t *testing.T) {
 			flic := vCap(lic, vCostCap(thr, false))
 			fin = vCap(fin, vCostCap(thr, false))
 			fresh := NewClassifier(thr)
-			fresh.AddContent("License", "Hostile", "h.txt", fin)
-			fresh.AddContent("License", "Lic", "l.txt", flic)
+			// one case in five registers the documents under unusual (category, name,
+			// variant) strings - empty, dots, separators: a match names its document
+			// through them
+			cat, nm1, nm2, vr := "License", "Hostile", "Lic", "h.txt"
+			if idx%5 == 3 {
+				odd := []string{"", ".", "..", "a/b", "/", "x\\y", " ", "é", "License/MIT", "-"}
+				cat, nm1, vr = odd[r.Intn(len(odd))], odd[r.Intn(len(odd))], odd[r.Intn(len(odd))]
+				nm2 = nm1 + "2"
+				cs.params["names"] = []string{cat, nm1, vr}
+				e.count("addcontent_unusual_names", 1)
+			}
+			fresh.AddContent(cat, nm1, vr, fin)
+			fresh.AddContent(cat, nm2, "l.txt", flic)
 			fresh.Match(fin)
 			fresh.Match(flic)
 			fresh.Normalize(fin)
@@ -421,4 +433,61 @@ func TestVerifC10(t *testing.T) {
 			cs.nontrivial(in, thr, corpus)
 		})
 	}
+
+	// bounded progress on megabyte-long lines: the same words as ONE line must not
+	// cost an order of magnitude more than on lines of ten words. Both are timed
+	// back to back in this process (these cases are serialised among themselves), the
+	// verdict is about their RATIO, the slow one has to exceed 4 s as well, and a
+	// difference is confirmed by a second measurement - a loaded machine slows both.
+	for k := 0; k < e.pick(2, 6); k++ {
+		k := k
+		e.run(n+k, "long-line-progress", map[string]interface{}{"k": k}, func(cs *vCase) {
+			vProgressMu.Lock()
+			defer vProgressMu.Unlock()
+			r := cs.rng
+			nw := []int{300000, 450000, 250000, 600000, 350000, 500000}[k%6]
+			words := make([]string, nw)
+			for i := range words {
+				words[i] = []string{"the", "software", "zq" + vOOVWord(r), "license", "a", "of", "copyright", "1.", "x-y"}[r.Intn(9)]
+			}
+			one := []byte(strings.Join(words, " ") + "\n")
+			var sb strings.Builder
+			for i, w := range words {
+				sb.WriteString(w)
+				if i%10 == 9 {
+					sb.WriteByte('\n')
+				} else {
+					sb.WriteByte(' ')
+				}
+			}
+			many := []byte(sb.String())
+			c := NewClassifier(0.8)
+			c.AddContent("License", "One", "a.txt", []byte("the license of the software is a license"))
+			measure := func() (float64, float64) {
+				t0 := time.Now()
+				c.Match(many)
+				c.Normalize(many)
+				tm := time.Since(t0).Seconds()
+				t0 = time.Now()
+				c.Match(one)
+				c.Normalize(one)
+				return tm, time.Since(t0).Seconds()
+			}
+			tm, to := measure()
+			cs.observe("seconds_many_lines", tm)
+			cs.observe("seconds_one_line", to)
+			cs.observe("words", nw)
+			if to > 4 && to > 15*tm {
+				tm2, to2 := measure()
+				if to2 > 4 && to2 > 15*tm2 {
+					cs.violation("superlinear-in-line-length", "%d words (%d bytes): Match+Normalize take %.1fs / %.1fs when they are one line, %.1fs / %.1fs on lines of ten words", nw, len(one), to, to2, tm, tm2)
+					return
+				}
+			}
+			e.count("long_line_progress_pairs", 1)
+			cs.nontrivial("progress", k)
+		})
+	}
 }
+
+var vProgressMu sync.Mutex
